@@ -1,7 +1,55 @@
-"""Regeneration of TinkVerif/Gen/*.lean from /repo's current source (translator front end)."""
-import os
+"""Regeneration of TinkVerif/Gen/*.lean from /repo's current source (translator front end).
+
+Each generated file is produced by the Go translator (go/harness/translator, built through the same
+overlay as the harnesses and run with cwd=/repo). A translator failure (unknown construct, missing
+function) is reported as a broken obligation; the previous generated file is left in place so that
+unrelated properties still build, but the property that owns the file fails."""
+import os, subprocess
+
+GEN = {
+    "MldsaAlgebra": {
+        "owner": ["C10"],
+        "args": ["-pkg", "internal/signature/mldsa", "-recv", "rZq", "-ns", "TinkVerif.Gen.Mldsa",
+                 "-consts", "q,qBits,d,inv256,degree,zeta", "-tables", "zetas",
+                 "-funcs", "reduceOnce,add,sub,neg,mul,power2Round,scalePower2,divBy2Gamma2,decompose,highBits,lowBits,"
+                           "makeHint,useHint,centeredAbs,centeredMax"],
+    },
+}
 
 
-def regenerate(prop, repo, verif, build):
+def regenerate(prop, repo, verif, build, build_harness=None):
     """Returns {"files": [...], "problems": [...], "obligations": n, "discharged": n}."""
-    return {"files": [], "problems": [], "obligations": 0, "discharged": 0}
+    res = {"files": [], "problems": [], "obligations": 0, "discharged": 0}
+    todo = [n for n, g in GEN.items() if prop is None or prop in g["owner"]]
+    if not todo:
+        # every property still needs the generated files to exist (the driver imports them)
+        todo = [n for n in GEN if not os.path.exists(os.path.join(verif, "lean", "TinkVerif", "Gen", n + ".lean"))]
+        if not todo:
+            return res
+    ok, log, binp = build_harness("translator")
+    if not ok:
+        res["problems"].append("translator does not build: " + log[-400:])
+        return res
+    env = dict(os.environ, GOFLAGS="-mod=mod", GOPROXY="off")
+    os.makedirs(os.path.join(verif, "lean", "TinkVerif", "Gen"), exist_ok=True)
+    for n in todo:
+        g = GEN[n]
+        out = os.path.join(verif, "lean", "TinkVerif", "Gen", n + ".lean")
+        tmp = os.path.join(build, n + ".lean.new")
+        if os.path.exists(tmp):
+            os.remove(tmp)
+        p = subprocess.run([binp] + g["args"] + ["-out", tmp], cwd=repo, env=env, stdout=subprocess.PIPE,
+                           stderr=subprocess.STDOUT, text=True, timeout=600)
+        res["obligations"] += 1
+        if p.returncode != 0 or not os.path.exists(tmp):
+            res["problems"].append("translator refused %s: %s" % (n, p.stdout[-600:]))
+            continue
+        new = open(tmp).read()
+        old = open(out).read() if os.path.exists(out) else None
+        if new != old:
+            with open(out, "w") as fh:
+                fh.write(new)
+        res["files"].append("TinkVerif/Gen/%s.lean (regenerated from /repo, %d bytes%s)" %
+                            (n, len(new), "" if new == old else ", CHANGED since last run"))
+        res["discharged"] += 1
+    return res
